@@ -45,7 +45,7 @@ The theorems, by section:
   fixed-arity `visit_operand` slots), `print_contains_operand_lists` (containment at the list-valued ones);
 * re-margining, lexer side (`adjust_whitespace`): `adjust_ws_spec_partial`, `in_multi_line_spec_partial`,
   `adjust_ws_lines_preserved`, `adjust_ws_inside_untouched`, `adjust_ws_margin_removed`,
-  `adjust_ws_spec_counterexample`;
+  `adjust_ws_spec_counterexample`, `adjust_ws_formfeed_counterexample` (F-C19-ws8);
 * re-margining, printer side (`_flush_adjusted_lines` at any target indentation): `flush_adjusted_spec_partial`,
   `flush_adjusted_block_spec_partial`, `flush_lines_preserved`, `flush_inside_untouched`, `flush_margin_replaced`,
   `flush_adjusted_spec_counterexample`;
@@ -440,6 +440,20 @@ theorem adjust_ws_spec_counterexample :
     ∧ joinLines (Spec.remargin (Spec.multiFlags (splitLines "    x = '\"\"\"'\n    y = 1".toList)) none
         (splitLines "    x = '\"\"\"'\n    y = 1".toList)) = "x = '\"\"\"'\ny = 1".toList
     ∧ Spec.hazardFree (splitLines "    x = '\"\"\"'\n    y = 1".toList) = false := by decide
+
+open MakoModel.PyExpr.Ws in
+/-- F-C19-ws8 (found in round 6): a form-feed-only line above the first statement.  The block contains nothing of
+`Spec.lineHazard` (so `adjust_whitespace` *does* compute `Spec.remargin` on it), yet the margin is not removed:
+`nextMargin` – the transcription of `re.search(r"^[ \t]*[^# \t]", line)` – takes the form feed for the first code
+character and fixes the margin at `[]`.  CPython's tokenizer treats such a line as blank, so the block `def f():` +
+these lines compiles while the re-margined one raises IndentationError.  `Spec.remargin` shares the regex's notion of
+"first code line"; the property's notion (CPython's) is narrower by exactly this class of lines.  The same line
+written at the block's own margin is harmless (second conjunct). -/
+theorem adjust_ws_formfeed_counterexample :
+    adjustWhitespace "\x0c\n    a = 1".toList = "\x0c\n    a = 1".toList
+    ∧ adjustWhitespace "    \x0c\n    a = 1".toList = "\x0c\na = 1".toList
+    ∧ Spec.hazardFree (splitLines "\x0c\n    a = 1".toList) = true
+    ∧ nextMargin none "\x0c".toList = some [] := by decide
 
 /-! ## `flush_adjusted_spec` : the printer side (`write_indented_block`, `_flush_adjusted_lines`, `_in_multi_line`) -/
 
